@@ -719,6 +719,7 @@ func TestC04(t *testing.T) {
 			func(rt *rapid.T) c04Plan { p := c04Gen(rt); p.RealKDF = true; p.N, p.T = 2, 2; return p },
 			func(p c04Plan) *viol { return c04Run(t, st, p) })
 	}
+	rapidProp(t, st, "nonce-streams", perShard(pick(32, 320)), 6, c04GenNonce, func(p c04NoncePlan) *viol { return c04RunNonce(t, st, p) })
 	rapidProp(t, st, "rounds", perShard(pick(48, 1200)), 2, c04GenRounds, func(p c04Rounds) *viol {
 		v := c04RunRounds(t, st, p)
 		if v != nil && st.IsKnown(v.Key) {
